@@ -287,7 +287,20 @@ def build_resource(case, trace):
 def build_app(case, trace):
     asyn = case['stack'] == 'asgi'
     cls = falcon.asgi.App if asyn else falcon.App
-    app = cls(middleware=build_components(case, trace), independent_middleware=case['independent'])
+    comps = build_components(case, trace)
+    # the stack may be assembled in several steps: constructor argument, then add_middleware() batches
+    cuts = sorted(set(c for c in case.get('batches', []) if 0 <= c <= len(comps)))
+    if not cuts:
+        app = cls(middleware=comps, independent_middleware=case['independent'])
+    else:
+        first = comps[:cuts[0]]
+        app = cls(middleware=first if first else None, independent_middleware=case['independent'])
+        bounds = cuts + [len(comps)]
+        for a, b in zip(bounds, bounds[1:]):
+            batch = comps[a:b]
+            if not batch:
+                continue
+            app.add_middleware(batch[0] if len(batch) == 1 else batch)
     app.add_route('/thing', build_resource(case, trace))
     sink_action = case['actions'].get('sink', 'return')
     if asyn:
@@ -462,6 +475,7 @@ def _stack_case(draw):
         'method_hooks': hooks['method_hooks'],
         'app_handler': draw(st.sampled_from(HANDLER_ACTIONS)),
         'actions': actions,
+        'batches': draw(st.one_of(st.just([]), st.just([]), st.lists(st.integers(0, 4), min_size=1, max_size=3))),
     }
 
 
